@@ -33,7 +33,7 @@ def generate(tier, seed):
                 if k == 1 or len(cases) % 5 == 0:
                     cases.append(case("engc", sp, adapter_M(lines), "w", steps))
                     dist["cached_enforcer"] = dist.get("cached_enforcer", 0) + 1
-    for _ in range(60 if tier == "quick" else 1500):
+    for _ in range(60 if tier == "quick" else 15000):
         n = rnd.choice([5, 15, 40])
         steps = list(obs)
         for _ in range(n):
